@@ -17,25 +17,30 @@ META["explanation"] = (
     "bytecode of /repo: from every state satisfying the inter-call invariant (symbolic stale _data_cnt, symbolic number "
     "of stale payload-free tokens, idle workers) one imap / imap_unordered call with n<=N items yields exactly its own "
     "results, cannot deadlock, is bounded (unwinding query), and ends in a state satisfying the invariant again.")
-META["bounds"] = {"quick": {"workers": "1", "chunk_size": "1", "items_per_call": "<=1", "stale_tokens": "<=1", "stale_data_cnt": "0..3"},
-                  "thorough": {"workers": "1,2", "chunk_size": "1", "items_per_call": "<=2", "stale_tokens": "<=2", "stale_data_cnt": "0..3"}}
+META["bounds"] = {"quick": {"workers": "1", "chunk_size": "1", "items_per_call": "<=1", "stale_tokens": "<=1 (imap_unordered), 0 (imap)", "stale_data_cnt": "0..3"},
+                  "thorough": {"workers": "1,2", "chunk_size": "1", "items_per_call": "<=1 all schedules; <=2 with at most 2 pre-emptions", "stale_tokens": "<=1", "stale_data_cnt": "0..3"}}
 META["outside_bounds"] = list(c01.META["outside_bounds"]) + [
-    "FactoryFunctorPool with max_chunks_per_worker: retirement / replacement of workers (ReplaceWorkerThread, stale stop "
-    "tokens in the replace queue) is NOT encoded - this half of the property is not decided by this check",
+    "FactoryFunctorPool with max_chunks_per_worker: encoded (thorough tier, 1 worker + 1 spare, quota 1) but only "
+    "counterexample search finishes within the budget; the refutation is reported INCONCLUSIVE (bug-hunting only)",
     "inter-call states in which a worker still holds the results lock after its last put (it only releases the lock)"]
 
 
 def configs(tier):
-    out = [{"kind": "pool", "kth": True, "workers": 1, "cs": 1, "nmax": 1, "api": "imap", "max_tokens": 1},
-           {"kind": "pool", "kth": True, "workers": 1, "cs": 1, "nmax": 1, "api": "imap_unordered", "max_tokens": 1}]
+    out = [{"kind": "pool", "kth": True, "workers": 1, "cs": 1, "nmax": 1, "api": "imap_unordered", "max_tokens": 1},
+           {"kind": "pool", "kth": True, "workers": 1, "cs": 1, "nmax": 1, "api": "imap", "max_tokens": 0}]
     if tier != "quick":
-        out += [{"kind": "pool", "kth": True, "workers": 1, "cs": 1, "nmax": 2, "api": "imap", "max_tokens": 2},
+        out += [{"kind": "pool", "kth": True, "workers": 1, "cs": 1, "nmax": 1, "api": "imap", "max_tokens": 1},
+                {"kind": "pool", "kth": True, "workers": 1, "cs": 1, "nmax": 2, "api": "imap", "max_tokens": 1, "context_bound": 2, "Ks": (80, 96)},
                 {"kind": "pool", "kth": True, "workers": 2, "cs": 1, "nmax": 1, "api": "imap", "max_tokens": 1},
-                {"kind": "pool", "kth": True, "workers": 1, "cs": 1, "nmax": 1, "api": "imap", "max_tokens": 1, "rq": 1}]
+                {"kind": "pool", "kth": True, "workers": 1, "cs": 1, "nmax": 1, "api": "imap", "max_tokens": 1, "rq": 1},
+                # FactoryFunctorPool with a chunk quota (1 initial worker, quota 1 => the worker retires after its first chunk
+                # and a spare is started by ReplaceWorkerThread): one call from a fresh pool incl. the invariant of the replace
+                # queue. Refutations do not finish within the budget: this configuration is bug-hunting only (INCONCLUSIVE).
+                {"kind": "factory", "workers": 1, "cs": 1, "nmax": 1, "quota": 1, "spares": 1, "fixed_K": 84, "timeout_s": 300}]
     return out
 
 
 def run(tier, seed):
     Ks = (48, 58, 70) if tier == "quick" else (52, 66, 80, 100)
     return runner.run_property("C03", tier, seed, "harness.pools_common", configs(tier), ("assert", "deadlock"), Ks,
-                               900 if tier == "quick" else 6000, META, wall_limit=1700 if tier == "quick" else 20000)
+                               900 if tier == "quick" else 2400, META, wall_limit=1700 if tier == "quick" else 12000)
